@@ -30,21 +30,36 @@ theorem safeAll_singleton (cfg : TWCfg Node) (top : Nat) (noParent : Bool) (sd :
   simp [SafeAll]
 
 /-- the mirror folds the visitor over a safe list without failing, simulating the tree walker -/
-theorem sim_visitAll (ps : PageSet Node) (hs : H.Sound) (hfresh : ∀ P, (ps.fresh P).length = 126) (sd : Nat) :
+theorem sim_visitAll (ps : PageSet Node) (hs : H.Sound) (hfresh : ∀ P, (ps.fresh P).length = 126) (sd : Nat)
+    (Lfin : List (PageId × Store Node)) :
     ∀ (evs : List (WriteNode Node VH)) (w : Walker Node) (a : TW Node), Sim H ps w a →
       SafeAll H (cfgOf H ps w.parentPage) (6 * k0 w.parentPage) w.parentPage.isNone sd a evs →
+      (w.reconstruction = true → SmallBy H ps Lfin ∧
+        (TW.visitAll H (cfgOf H ps w.parentPage) sd a evs).log <+: Lfin) →
       ∃ w', w.visitAll H ps sd evs = .ok w' ∧
         Sim H ps w' (TW.visitAll H (cfgOf H ps w.parentPage) sd a evs) ∧ Same w w' ∧
         w'.childPageRoots = w.childPageRoots := by
   intro evs
   induction evs with
-  | nil => intro w a h _; exact ⟨w, rfl, h, Same.rfl' _, rfl⟩
+  | nil => intro w a h _ _; exact ⟨w, rfl, h, Same.rfl' _, rfl⟩
   | cons c cs ih =>
-    intro w a h hsafe
+    intro w a h hsafe hfin
     obtain ⟨hc, hrest⟩ := hsafe
-    obtain ⟨w1, hw1, hs1, hsame1, hcpr1⟩ := sim_visit H ps hs hfresh sd h c hc
+    obtain ⟨w1, hw1, hs1, hsame1, hcpr1⟩ := sim_visit H ps hs hfresh sd h c hc Lfin (by
+      intro hr
+      obtain ⟨hsb, hpre⟩ := hfin hr
+      refine ⟨hsb, ?_⟩
+      simp only [TW.visitAll] at hpre
+      exact List.IsPrefix.trans (tw_visitAll_log_prefix H _ sd cs _) hpre)
     have hpar : w1.parentPage = w.parentPage := hsame1.1
-    obtain ⟨w2, hw2, hs2, hsame2, hcpr2⟩ := ih w1 _ hs1 (by rw [hpar]; exact hrest)
+    obtain ⟨w2, hw2, hs2, hsame2, hcpr2⟩ := ih w1 _ hs1 (by rw [hpar]; exact hrest) (by
+      intro hr
+      have hr0 : w.reconstruction = true := by rw [← hsame1.2.2.2.2]; exact hr
+      obtain ⟨hsb, hpre⟩ := hfin hr0
+      refine ⟨hsb, ?_⟩
+      rw [hpar]
+      simp only [TW.visitAll] at hpre
+      exact hpre)
     simp only [Walker.visitAll, TW.visitAll]
     rw [hw1]
     simp only
